@@ -650,6 +650,12 @@ class SSHChannel(Generic[AnyStr], SSHPacketHandler):
 
         self._close_send()
 
+        # No response can arrive for requests still outstanding
+        while self._request_waiters:
+            waiter = self._request_waiters.pop(0)
+            if not waiter.done(): # pragma: no branch
+                waiter.set_result(False)
+
         self._recv_state = 'close_pending'
         self._flush_recv_buf()
 
